@@ -70,6 +70,7 @@ class Body:
         self._ipdom = None
         self._defs = None
         self._restrict = None
+        self._tcache = {}
 
     # ---- CFG
     def live_blocks(self):
@@ -331,7 +332,7 @@ class Body:
         """
         if seen is None:
             seen = frozenset()
-        if depth > 60:
+        if depth > 400:
             return ("deep",)
         if isinstance(x, int):
             return self._trace_local(x, depth, seen)
@@ -374,6 +375,17 @@ class Body:
             return ("arg", l)
         if l in seen:
             return ("cycle", l)
+        if self._restrict is None:
+            hit = self._tcache.get(l)
+            if hit is not None:
+                return hit
+            r = self._trace_local_uncached(l, depth, seen)
+            if not expr_mentions(r, lambda x: x[0] in ("cycle", "deep")):
+                self._tcache[l] = r
+            return r
+        return self._trace_local_uncached(l, depth, seen)
+
+    def _trace_local_uncached(self, l, depth, seen):
         ds = self.defs().get(l, [])
         if self._restrict is not None:
             ds = [d for d in ds if d[1] in self._restrict]
